@@ -33,8 +33,10 @@ enum GOpt {
     ParamH,
     /// lifetime parameters with inline outlives bounds: `<'a, 'b: 'a, T: 'b>` with fields `&'b T` and `&'a u8`
     Outlives,
+    /// a const parameter declared BEFORE the type parameter: `<const N: usize, T>`
+    ConstFirst,
 }
-const GOPTS: [GOpt; 13] = [GOpt::None, GOpt::T, GOpt::LifetimeT, GOpt::ConstN, GOpt::DefaultT, GOpt::WhereT, GOpt::UnsizedTail, GOpt::Float, GOpt::Assoc, GOpt::ConstLikeType, GOpt::TwoLifetimes, GOpt::ParamH, GOpt::Outlives];
+const GOPTS: [GOpt; 14] = [GOpt::None, GOpt::T, GOpt::LifetimeT, GOpt::ConstN, GOpt::DefaultT, GOpt::WhereT, GOpt::UnsizedTail, GOpt::Float, GOpt::Assoc, GOpt::ConstLikeType, GOpt::TwoLifetimes, GOpt::ParamH, GOpt::Outlives, GOpt::ConstFirst];
 
 #[derive(Clone, Copy, PartialEq, Eq, Debug)]
 enum Naming {
@@ -95,7 +97,7 @@ fn applicable(c: &Case) -> Vec<&'static str> {
     match c.gopt {
         GOpt::UnsizedTail => v.retain(|t| !matches!(*t, "Copy" | "Clone" | "Default")),
         GOpt::Float => v.retain(|t| !matches!(*t, "Eq" | "Ord" | "Hash")),
-        GOpt::LifetimeT | GOpt::ConstN | GOpt::ConstLikeType | GOpt::TwoLifetimes | GOpt::Outlives => v.retain(|t| *t != "Default"),
+        GOpt::LifetimeT | GOpt::ConstN | GOpt::ConstLikeType | GOpt::TwoLifetimes | GOpt::Outlives | GOpt::ConstFirst => v.retain(|t| *t != "Default"),
         _ => {}
     }
     v
@@ -144,6 +146,10 @@ fn field_ty(c: &Case, vi: usize, fi: usize) -> (&'static str, Vec<&'static str>)
             0 => ("&'a T", vec!["&0u8", "&1u8"]),
             _ => ("&'b T", vec!["&0u8", "&1u8"]),
         },
+        GOpt::ConstFirst => match (vi + fi) % 2 {
+            0 => ("[T; N]", vec!["[0u8, 1]", "[1u8, 0]"]),
+            _ => ("T", vec!["0u8", "1u8"]),
+        },
         GOpt::Outlives => match (vi + fi) % 3 {
             0 => ("&'b T", vec!["&0u8", "&1u8"]),
             1 => ("&'a u8", vec!["&0u8", "&1u8"]),
@@ -171,6 +177,7 @@ fn generics_of(g: GOpt) -> (&'static str, &'static str, &'static str) {
         GOpt::TwoLifetimes => ("<'a, 'b, T>", "", "<'static, 'static, u8>"),
         GOpt::ParamH => ("<H>", "", "<u8>"),
         GOpt::Outlives => ("<'a, 'b: 'a, T: 'b>", "", "<'static, 'static, u8>"),
+        GOpt::ConstFirst => ("<const N: usize, T>", "", "<2, u8>"),
     }
 }
 
@@ -193,6 +200,7 @@ fn uses_all_params(c: &Case) -> bool {
         GOpt::TwoLifetimes => tys.contains(&"&'a T") && tys.contains(&"&'b T"),
         GOpt::ParamH => tys.iter().any(|t| t.contains('H')),
         GOpt::Outlives => tys.contains(&"&'b T") && tys.contains(&"&'a u8"),
+        GOpt::ConstFirst => tys.contains(&"[T; N]"),
     }
 }
 
